@@ -14,7 +14,10 @@ SQLITE = 'django_evolution/db/sqlite3.py'
 # changes (other than type changes and column renames) and Meta changes".
 MERGEABLE = ('add_column', 'delete_column', 'change_column', 'change_meta')
 
-OP = K.Rec(type=K.Str, mutation=K.Atom('Mutation'))
+OP = K.Rec(type=K.Str, mutation=K.Atom('Mutation'), field=K.Ref('Field'), initial=K.Opt(K.Atom('Initial')),
+           new_attrs=K.Atom('Attrs'), old_field=K.Ref('Field'), new_field=K.Ref('Field'), prop_name=K.Str,
+           old_value=K.Atom('MetaValue'), new_value=K.Atom('MetaValue'), sql=K.Atom('SQLList'))
+GEN = K.Opt(K.Ref('SQLResult'))     # what the backend SQL generators return
 SQL = K.Atom('SQL')
 
 
@@ -63,16 +66,46 @@ def build():
             "implies(prev_op is not None and some(prev_op)['type'] in MERGEABLE and op['type'] in MERGEABLE,"
             "        result is prev_sql_result)",
             "implies(not (prev_op is not None and some(prev_op)['type'] in MERGEABLE and op['type'] in MERGEABLE),"
-            "        fresh_ref(result))"],
-        raises={'EvolutionNotImplementedError': True, 'Exception': True},
-        abstract={
-            # the per-type dispatch only fills the chosen result object; which object is chosen is
-            # decided by the statements before it, which are analysed as they are
-            "if op_type == 'add_column':": ["_fill = fill_result(sql_result, op)"]},
-        note='dispatch over op types abstracted: it calls sql_result.add(...) only')
-    w.stub('fill_result', params={'sql_result': K.Ref('SQLResult'), 'op': OP},
-           may_raise=['EvolutionNotImplementedError', 'Exception'],
-           note='stands for the if/elif chain that adds SQL to the chosen result (backend SQL generators)')
+            "        fresh_ref(result))",
+            # queuing an operation never flattens (= separately rebuilds) anything
+            "flattened == old(flattened)"],
+        ensures_exc=["flattened == old(flattened)"],
+        raises={'EvolutionNotImplementedError': True, 'Exception': True, 'KeyError': True},
+        note='the per-type dispatch is analysed as written; the backend generators are stubs returning a result object')
+    w.cls('Field', {'name': K.Str})
+    gen = dict(returns=GEN, may_raise=['Exception'], note='backend SQL generator (returns a new SQLResult/AlterTableSQLResult)')
+    w.stub('BaseEvolutionOperations.add_column', params={'self': K.Ref('BaseEvolutionOperations'), 'model': K.Ref('MockModel'),
+                                                         'f': K.Ref('Field'), 'initial': K.Opt(K.Atom('Initial'))}, **gen)
+    w.stub('BaseEvolutionOperations.change_column_attrs',
+           params={'self': K.Ref('BaseEvolutionOperations'), 'model': K.Ref('MockModel'), 'mutation': K.Atom('Mutation'),
+                   'field_name': K.Str, 'new_attrs': K.Atom('Attrs')}, **gen)
+    w.stub('BaseEvolutionOperations.change_column_type',
+           params={'self': K.Ref('BaseEvolutionOperations'), 'model': K.Ref('MockModel'), 'old_field': K.Ref('Field'),
+                   'new_field': K.Ref('Field'), 'new_attrs': K.Atom('Attrs')}, **gen)
+    w.stub('BaseEvolutionOperations.delete_column', params={'self': K.Ref('BaseEvolutionOperations'), 'model': K.Ref('MockModel'),
+                                                            'f': K.Ref('Field')}, **gen)
+    w.stub('BaseEvolutionOperations.change_meta_any',
+           params={'self': K.Ref('BaseEvolutionOperations'), 'model': K.Ref('MockModel'),
+                   'old_value': K.Atom('MetaValue'), 'new_value': K.Atom('MetaValue')}, **gen)
+    w.dynamic_getattr = {'BaseEvolutionOperations': 'BaseEvolutionOperations.change_meta_any'}
+    # the two ways of putting generated SQL into the chosen result object
+    w.stub('SQLResult.add', params={'self': K.Ref('SQLResult'), 'sql_or_result': None},
+           note='merges the argument into self; an AlterTableSQLResult argument contributes its alter_table items '
+                '(so it shares the single rebuild). No flattening.')
+    w.contract(
+        'SQLResult.normalize_sql', module=SQLRES, serves=['C18'],
+        params={'self': K.Ref('SQLResult'), 'sql_or_result': GEN}, returns=K.Seq(SQL),
+        modifies=['flattened'],
+        ensures=['implies(sql_or_result is not None, len(flattened) == len(old(flattened)) + 1 and '
+                 '        sel(flattened, len(old(flattened))) is sql_or_result)',
+                 'implies(sql_or_result is None, flattened == old(flattened))'],
+        note='restricted to the argument kinds reachable from generate_table_op_sql: None or a result object '
+             '(plain lists are the identity case)')
+    w.contract(
+        'SQLResult.add_sql', module=SQLRES, serves=['C18'],
+        params={'self': K.Ref('SQLResult'), 'sql_or_result': GEN}, modifies=['flattened'],
+        ensures=['implies(sql_or_result is not None, len(flattened) == len(old(flattened)) + 1)'],
+        note='add_sql flattens its argument first: a result object passed here gets its own to_sql() (own rebuild)')
 
     w.contract(
         'BaseEvolutionOperations.generate_table_ops_sql', module=COMMON, serves=['C18'],
